@@ -145,8 +145,11 @@ type world struct {
 	mu     sync.Mutex
 }
 
+var worldSeq int
+
 func newWorld(b *binding, mc, mr int) *world {
-	name := fmt.Sprintf("c09-%s-%d-%d", b.name, mc, mr)
+	worldSeq++
+	name := fmt.Sprintf("c09-%s-%d-%d-%d", b.name, mc, mr, worldSeq)
 	cl := cluster.NewCluster(v2.Cluster{Name: name, LbType: v2.LB_RANDOM,
 		CirBreThresholds: v2.CircuitBreakers{Thresholds: []v2.Thresholds{{MaxConnections: uint32(mc), MaxRequests: uint32(mr)}}}})
 	info := cl.Snapshot().ClusterInfo()
@@ -441,22 +444,10 @@ func (w *world) apply(o op, e vh.Ev) (feasible bool) {
 	return false
 }
 
-// end closes everything at the upstream and waits until the pool has digested it, so that no late
-// close event of this case moves the (shared) gauges while the next case runs.
+// end closes everything at the upstream. Gauges and resources are per case (unique cluster name),
+// so late close events of this case cannot disturb the next one.
 func (w *world) end(dead bool) {
 	w.b.up.CloseAll()
-	if dead {
-		return
-	}
-	for _, c := range w.reg.Conns() {
-		c.WaitClosed(opDeadline)
-	}
-	w.mu.Lock()
-	ls := append([]*lease{}, w.all...)
-	w.mu.Unlock()
-	for _, l := range ls {
-		waitCh(l.lst.destroyed)
-	}
 }
 
 func runHist(b *binding, casesPath string, tr *vh.Trace, shard, shards int) {
